@@ -3,7 +3,7 @@ ID = "C18"
 LEVEL = "model_checking"
 HARNESS = ["c18_util.cpp"]
 BOUNDS = {
-    "quick": {"vector_size_n": "0..4 (erase/collapse 0..5)", "index_list_k": "0..n+1", "triangles": "0..3", "map_size": "0..4", "strips": "<=2 strips x <=5 points, alphabet 4 or unconstrained 16-bit", "map_keys": "<=3"},
+    "quick": {"vector_size_n": "0..4 (erase/collapse 0..5)", "index_list_k": "0..n+1", "triangles": "0..3", "map_size": "0..4", "strips": "<=2 strips x <=5 points, alphabet 4 or unconstrained 16-bit", "map_keys": "<=3 (uint16 keys, ordered and unordered map), <=2 signed int keys in [-3,12)"},
     "thorough": {"vector_size_n": "0..6 (erase/collapse 0..7)", "index_list_k": "0..n+1", "triangles": "0..4", "map_size": "0..5", "strips": "<=2 strips x <=7 points", "map_keys": "<=4"},
 }
 ASSUMPTIONS = [
@@ -38,6 +38,8 @@ def jobs(tier, seed):
     for n in range(0, (3 if tier == "quick" else 4) + 1):
         for msz in range(0, 4):
             J.append(dict(entry="h_mapkeys", args=[n, msz, 1], budget=bud))
+            if n <= 2:
+                J.append(dict(entry="h_mapkeys_int", args=[n, msz], budget=bud))
             if n <= (1 if tier == "quick" else 2):
                 J.append(dict(entry="h_mapkeys", args=[n, msz, 0], budget=bud))
     L = 5 if tier == "quick" else 7
